@@ -165,7 +165,7 @@ func RunFaultHistory(R *vcommon.Report, k dbcheck.Knobs, caseIdx int, rng *rand.
 		run.Log("FAULTS ON: %s skip=%d count=%d", rule.Name, rule.Skip, rule.Count)
 		before := fi.fired.Load()
 		surv := run.SurvivorOpen()
-		run.SurvivorSeeks(surv, 2, false)
+		run.SurvivorSeeks(surv, 6, false)
 		fi.set(rule)
 		errs := 0
 		for i := 0; i < 24 && !run.Failed(); i++ {
@@ -176,7 +176,11 @@ func RunFaultHistory(R *vcommon.Report, k dbcheck.Knobs, caseIdx int, rng *rand.
 			}
 			switch {
 			case x >= 12:
-				run.SurvivorSeeks(surv, 3, true)
+				if rule.Name == "read-table" || rule.Name == "any-table-io" {
+					run.SurvivorSeeks(surv, 12, true)
+				} else {
+					run.SurvivorSeeks(surv, 3, true)
+				}
 			case x < 3:
 				run.WriteStep()
 			case x < 5:
